@@ -176,6 +176,24 @@ func (x *Exec) Run(opName string, vars map[string]Val) *Expect {
 	return x.out
 }
 
+// RunSelection applies a selection set to one node (what a subscription delivers for an event).
+func (x *Exec) RunSelection(n *Node, sels []*Sel, vars map[string]Val) *Expect {
+	x.out = &Expect{Calls: map[string]int{}, Borderline: map[string]string{}, BorderPath: map[string][]interface{}{}, BorderN: map[string]int{}, Seen: map[int]int{}, BadEnum: map[string]BadEnumInfo{}}
+	x.faults = map[string]Fault{}
+	for _, f := range x.Faults {
+		x.faults[faultKey(f.Node, f.Field)] = f
+	}
+	x.visited = map[int]int{}
+	x.vars = vars
+	if x.vars == nil {
+		x.vars = map[string]Val{}
+	}
+	m := map[string]interface{}{}
+	x.selSet(n, sels, m, nil, 1)
+	x.out.Data = m
+	return x.out
+}
+
 func (x *Exec) boolArg(d DirUse) (bool, bool) {
 	for _, kv := range d.Args {
 		if kv.Key == "if" {
